@@ -57,6 +57,13 @@ func pushedAuthnSession(
 		return nil, err
 	}
 
+	// An empty list of authorization details says the same as none. It is not
+	// kept, so that the session is the same whether or not the storage
+	// serializes it (the JSON member is tagged omitempty).
+	if len(session.AuthDetails) == 0 {
+		session.AuthDetails = nil
+	}
+
 	session.PushedAuthReqID = requestURI()
 	session.ExpiresAtTimestamp = timeutil.TimestampNow() + ctx.PARLifetimeSecs
 
